@@ -88,6 +88,17 @@ class _Unit:
             ps = ps[1:]
         return ps
 
+    def default_of(self, pname: str) -> Optional[ast.expr]:
+        a = self.node.args
+        pos = a.posonlyargs + a.args
+        for x, d in zip(pos[len(pos) - len(a.defaults):], a.defaults):
+            if x.arg == pname:
+                return d
+        for x, d in zip(a.kwonlyargs, a.kw_defaults):
+            if x.arg == pname:
+                return d
+        return None
+
     def free_flags(self) -> List[str]:
         return (self.outer.params + self.outer.kwonly) if self.outer is not None else []
 
@@ -162,6 +173,8 @@ def _forcing_sites(ctx: Ctx, r: RuleResult) -> int:
         if cq == 'always':
             return sc
         fa = args.get(cq[1])
+        if fa is None and not cq[1].startswith('self.'):
+            fa = g.default_of(cq[1])    # the flag is left to its default
         if fa is None or (isinstance(fa, ast.Constant) and not fa.value):
             return None
         if isinstance(fa, ast.Constant):
@@ -294,11 +307,26 @@ def _forcing_sites(ctx: Ctx, r: RuleResult) -> int:
                 where = f'{mod.relpath}:{node.lineno}'
                 ty = ast.unparse(node.args[0]) if node.args else '?'
                 fname = fi.qualname if fi else '<class body>'
-                if fi is None and ty.startswith('DataType.') and isinstance(fa, ast.Constant):
+                if fi is None and isinstance(fa, ast.Constant) and node.args and _fixed_type_arg(ctx, mod, node.args[0]):
                     r.ok(f'{node.func.id}({ty}, {flag}=True) as a field validator')
                 else:
                     r.fail(f'{fname}:{node.func.id}', f'{node.func.id}(force) used outside a field declaration or with a non-constant type {ty}', where)
     return n_force
+
+
+def _fixed_type_arg(ctx: Ctx, mod, node: ast.expr) -> bool:
+    """the type handed to the validator factory is a constant DataType, or a function of the node under validation
+    that reads the parameter type of its own operator (attrgetter('operator.parameter1'), lambda s: s.operator.parameter)"""
+    src = ast.unparse(node)
+    if src.startswith('DataType.'):
+        return True
+    from .terms import Lam, _State, Attr as TAttr
+    t = ctx.ev.expr(node, _State(), mod, None, 0)
+    if isinstance(t, Lam) or (isinstance(t, Call) and isinstance(t.func, Ext) and t.func.name.split('.')[-1] == 'attrgetter'):
+        owner = Sym('owner')
+        res = ctx.ev.apply(t, (owner,), (), _State(), 0)
+        return isinstance(res, TAttr) and res.name.startswith('parameter') and res.base == TAttr(owner, 'operator')
+    return False
 
 
 def _merge(old, new):
